@@ -53,11 +53,12 @@ pub fn ref_step(set: u8, r: &ScanRef, ctx: &mut Ctx2, b: u8) -> Want {
 }
 
 pub fn ref_for(set: u8) -> ScanRef {
-    if set == 1 {
-        ScanRef::set1()
-    } else {
-        ScanRef::set2()
+    let mut r = if set == 1 { ScanRef::set1() } else { ScanRef::set2() };
+    let uni = universe();
+    if uni.len() > NAMED_KEYS.len() {
+        let _ = r.extend_from_readme(set, &uni);
     }
+    r
 }
 
 pub fn contexts(set: u8) -> Vec<Ctx2> {
